@@ -145,3 +145,45 @@ def check(run):
     tries = [n for n in ir.walk(wbb["body"]) if n.get("k") == "Try"]
     run.ob("R16.4", "write_block(block):no-handler", not tries, wbb, wbb["line"], "write_block(block) propagates exceptions")
     run.floor("R16.4", 2, "write_block obligations")
+
+    # ---------------- R16.5 rotation starts the new output from a clean slate
+    # Whatever exporter state decides how the next block is framed (is a file header due?) must be re-initialised by
+    # rotate_output: otherwise a failure in the middle of a block leaves state behind that mis-frames the recovery output.
+    check_rotation_resets(run, "R16.5")
+
+
+def check_rotation_resets(run, rule):
+    facts = run.facts
+    wbb = facts.fn(EXP + "::write_block", sig=["CDNS::CdnsBlock &"], rule=rule)
+    env = Env(wbb["body"])
+    reads = set()
+    for st, g, loops in ir.guarded_statements(wbb["body"], env):
+        if st.get("k") in ("IfCond", "LoopHead", "SwitchHead"):
+            continue
+        if any(callee_qn(c) == EXP + "::write_file_header" for c in ir.calls_in(st)):
+            for a in ir.walk_formula(g):
+                txt = repr(a)
+                import re as _re
+                for fld in facts.record(EXP, rule=rule)["fields"]:
+                    if _re.search(r"this\.%s(?![A-Za-z0-9_])" % _re.escape(fld["n"]), txt) or ("'this', '%s'" % fld["n"]) in txt:
+                        reads.add(fld["n"])
+    if not reads:
+        run.ob(rule, "write_block:header-state", None, wbb, wbb["line"], "the condition under which the file header is written reads no exporter member")
+    rots = [f for f in facts.fns(EXP + "::rotate_output")]
+    for ro in rots:
+        assigned = set()
+        envr = Env(ro["body"])
+        for st, g, loops in ir.guarded_statements(ro["body"], envr):
+            if st.get("k") in ("IfCond", "LoopHead", "SwitchHead"):
+                continue
+            for lp, rhs, node in consumption.assignment_targets([st]):
+                if lp and lp[0] == "this" and len(lp) == 2 and g == ("T",):
+                    assigned.add(lp[1])
+        for m in sorted(reads):
+            ok = m in assigned
+            run.ob(rule, "rotate_output%s:resets-%s" % (ro.get("targs", ""), m), ok, ro, ro["line"],
+                   "rotate_output re-initialises %s, which decides whether the next block is preceded by a file header" % m if ok else
+                   "write_block() decides about the file header from %s, but rotate_output() does not reset it: state left behind by a failed "
+                   "block makes the first block of the recovery output start without (or with a second) header" % m)
+    run.floor(rule, 2, "exporter rotate instantiations x header state")
+
